@@ -124,7 +124,15 @@ fn gen_stream(stream: &str, n: u64, seed: u64) {
         "re" => for _ in 0..n { writeln!(w, "{}", re::gen_re_line(&mut r)).unwrap(); },
         "nd" => for _ in 0..n { writeln!(w, "{}", call::gen_nd_line(&mut r)).unwrap(); },
         "relaw" => for _ in 0..n { writeln!(w, "{}", re::gen_relaw_line(&mut r)).unwrap(); },
-        "ord" => for i in 0..n { if i % 40 == 3 { let p: Vec<slac::Value> = vec![slac::Value::String("9223372036854775807".into()), slac::Value::Number(1e19), slac::Value::Number(1e30), slac::Value::Number(9223372036854775808.0),
+        "ord" => for i in 0..n {
+            // chains of NEIGHBOURING doubles (1, 2 and 3 ulps apart, as numbers or as their shortest texts): an "approximately equal" comparison is
+            // reflexive and symmetric but not transitive exactly here
+            if i % 25 == 7 { let x = match r.below(4) { 0 => 1.0, 1 => 0.1 + 0.2, 2 => (r.below(100000) as f64) / 7.0, _ => gen::gen_num(&mut r) }; let x = if x.is_finite() { x } else { 2.5 };
+                let up = |v: f64, k: u64| f64::from_bits(if v >= 0.0 { v.to_bits() + k } else { v.to_bits() - k });
+                let mut tri = vec![x, up(x, 1), up(x, if r.chance(1, 2) { 2 } else { 3 })]; if r.chance(1, 2) { tri.reverse(); } if r.chance(1, 4) { tri.swap(0, 1); }
+                let val = |r: &mut rng::Rng, v: f64| if r.chance(1, 5) { slac::Value::String(format!("{}", v)) } else { slac::Value::Number(v) };
+                writeln!(w, "ord {} {} {}", show_in(&val(&mut r, tri[0])), show_in(&val(&mut r, tri[1])), show_in(&val(&mut r, tri[2]))).unwrap(); continue; }
+            if i % 40 == 3 { let p: Vec<slac::Value> = vec![slac::Value::String("9223372036854775807".into()), slac::Value::Number(1e19), slac::Value::Number(1e30), slac::Value::Number(9223372036854775808.0),
                     slac::Value::String("-9223372036854775808".into()), slac::Value::Number(-1e19), slac::Value::Number(3.0)];
                 writeln!(w, "ord {} {} {}", show_in(r.pick(&p)), show_in(r.pick(&p)), show_in(r.pick(&p))).unwrap(); continue; }
             let a = gen::gen_val(&mut r, 2); let b = if r.chance(1, 6) { a.clone() } else { gen::gen_val(&mut r, 2) }; let c = if r.chance(1, 6) { b.clone() } else { gen::gen_val(&mut r, 2) };
